@@ -721,6 +721,19 @@ func (av *Array) ToString2(b io.Writer, s px.FormatContext, f px.Format, delim b
 	delete(g, av)
 }
 
+// uniqueKey returns the hash key of v, or false when v cannot provide one
+func uniqueKey(v px.Value) (key px.HashKey, ok bool) {
+	defer func() {
+		if r := recover(); r != nil {
+			if e, reported := r.(issue.Reported); !reported || e.Code() != px.InvalidHashKey {
+				panic(r)
+			}
+			ok = false
+		}
+	}()
+	return px.ToKey(v), true
+}
+
 func (av *Array) Unique() px.List {
 	top := len(av.elements)
 	if top < 2 {
@@ -730,9 +743,19 @@ func (av *Array) Unique() px.List {
 	result := make([]px.Value, 0, top)
 	exists := make(map[px.HashKey]bool, top)
 	for _, v := range av.elements {
-		key := px.ToKey(v)
-		if !exists[key] {
+		dup := false
+		if !v.Equals(v, nil) {
+			// equal to nothing (NaN, a Sensitive, a list that holds one): never a duplicate
+		} else if key, ok := uniqueKey(v); ok {
+			dup = exists[key]
 			exists[key] = true
+		} else {
+			// no hash key (an instance of an Object type, a TypedName ...): compared with the kept elements
+			for _, w := range result {
+				dup = dup || w.Equals(v, nil)
+			}
+		}
+		if !dup {
 			result = append(result, v)
 		}
 	}
